@@ -118,6 +118,12 @@ fn contents(n: usize, mode: u32, seed: u32) -> Vec<f32> {
                 let pos = (seed as usize).wrapping_mul(2654435761).wrapping_add(j * 7919) % n;
                 v[pos] = *s;
             }
+            // a NaN (a legitimate content: every operation here only moves values) in a seed-chosen place, in half of
+            // those cases the very last one
+            if seed & 4 == 0 {
+                let pos = if seed & 8 == 0 { n - 1 } else { (seed as usize >> 4) % n };
+                v[pos] = f32::NAN;
+            }
             v
         }
         _ => crate::tape::payload(seed, 1, n, 8.0),
@@ -283,7 +289,7 @@ impl Prop for C14 {
         t.pick(1_000_000, 100_000_000)
     }
     fn rule(&self) -> String {
-        "tape-decoded (operation, source shape with axes 1..6 (thorough 1..12; one case in 40 is a large tensor of >= 16384 elements with 1..7+ channels), target = a factorisation of the element count or a shape with a different count, contents class incl. signed zeros/subnormals/f32::MAX/+-infinity, chains of up to 5 reshapes optionally via a vector). Oracle: explicit row-major index arithmetic c*H*W+h*W+w, bitwise. Non-trivial: >= 2 axes > 1 and height != width. Distinct = (operation, source shape, target shape).".into()
+        "tape-decoded (operation, source shape with axes 1..6 (thorough 1..12; one case in 40 is a large tensor of >= 16384 elements with 1..7+ channels), target = a factorisation of the element count or a shape with a different count, contents class incl. signed zeros/subnormals/f32::MAX/+-infinity/NaN (also in the last position), chains of up to 5 reshapes optionally via a vector). Oracle: explicit row-major index arithmetic c*H*W+h*W+w, bitwise. Non-trivial: >= 2 axes > 1 and height != width. Distinct = (operation, source shape, target shape).".into()
     }
     fn run_case(&self, tape: &[u32], ev: &mut CaseEv) -> CheckResult {
         check(&decode(tape, self.0), ev)
